@@ -361,6 +361,10 @@ def build_obligation(inst):
                 from lang import cellops as CO
                 if how == "square":
                     h, xv = g(x=y * y), C_ * C_
+                elif how == "cube":              # an affine factor times a factor that is NOT affine in the same variable
+                    h, xv = g(x=y * (y * y)), C_ * C_ * C_
+                elif how == "yexp":
+                    h, xv = g(x=y * ops.exp(y * 0.5)), C_ * CO.UNARY["exp"](C_ * 0.5)
                 else:
                     # reductions of y * t over a fresh integer input: only the SUM is affine in y
                     T_ = mk.array("t", (2,), "pos")
@@ -476,7 +480,7 @@ def instances(tier, seed):
     for b in BATCH_CFGS[:2]:
         for rank in (1, 2, 3):
             out.append(("lazy_nonaffine", b, rank))
-            for how in ("reduce_add", "reduce_max", "reduce_min", "reduce_mul", "reduce_mulsum"):
+            for how in ("reduce_add", "reduce_max", "reduce_min", "reduce_mul", "reduce_mulsum", "cube", "yexp"):
                 out.append(("lazy_nonaffine", b, rank, how))
     return out
 
